@@ -83,6 +83,63 @@ let destructure_case (toks : string list) : string =
     else show (assign_arrays (List.mapi (fun i t -> if t = "S" then TSym (nat_of_int i) else TNotSym) ts) (upto 0))
   | [] -> failwith "bad D case"
 
+(* Pratt cases: "Q <tokens>" - the elements of the array inside one (infix [...]) block as the real reader
+   produced them:  s:NAME symbol, l:NAME symbol with colonTail, d:NAME dot symbol, i f b q (int float bool
+   string), c comma, m semicolon, k comment, o any other atom, p pair, B1 / B0 infix block (empty / not),
+   H1 / H0 hash (empty / not), a[ ... ] array with nested tokens.  NAME: "\s" space, "\t", "\n", "\\".
+   model = ok:<number of statements> | err | crash:<site> | fuel   (Model/PrattShape.v expand_gen) *)
+let ascii_of_char (c : char) : ascii =
+  let n = Char.code c in
+  let b k = (n lsr k) land 1 = 1 in
+  Ascii (b 0, b 1, b 2, b 3, b 4, b 5, b 6, b 7)
+let cstr (s : string) : ascii list = List.init (String.length s) (fun i -> ascii_of_char s.[i])
+let decode (s : string) : string =
+  let b = Buffer.create (String.length s) in
+  let n = String.length s in
+  let i = ref 0 in
+  while !i < n do
+    if s.[!i] = '\\' && !i + 1 < n then begin
+      (match s.[!i + 1] with
+       | 's' -> Buffer.add_char b ' ' | 't' -> Buffer.add_char b '\t'
+       | 'n' -> Buffer.add_char b '\n' | c -> Buffer.add_char b c);
+      i := !i + 2
+    end else begin Buffer.add_char b s.[!i]; incr i end
+  done;
+  Buffer.contents b
+
+let rec pratt_items (ws : string list) : ptok list * string list =
+  match ws with
+  | [] -> ([], [])
+  | "]" :: rest -> ([], rest)
+  | "a[" :: rest ->
+    let (inner, rest') = pratt_items rest in
+    let (more, rest'') = pratt_items rest' in
+    (PArr inner :: more, rest'')
+  | w :: rest ->
+    let name () = cstr (decode (String.sub w 2 (String.length w - 2))) in
+    let k n = mk_tok (nat_of_int n) [] in
+    let t = (match w with
+      | "i" -> k 3 | "f" -> k 4 | "b" -> k 5 | "q" -> k 6 | "c" -> k 7 | "m" -> k 8 | "k" -> k 9 | "o" -> k 10
+      | "p" -> k 11 | "B1" -> k 12 | "B0" -> k 13 | "H1" -> k 14 | "H0" -> k 15
+      | _ when String.length w >= 2 && w.[1] = ':' ->
+        (match w.[0] with
+         | 's' -> mk_tok (nat_of_int 0) (name ()) | 'l' -> mk_tok (nat_of_int 1) (name ())
+         | 'd' -> mk_tok (nat_of_int 2) (name ()) | _ -> failwith ("bad pratt token " ^ w))
+      | _ -> failwith ("bad pratt token " ^ w)) in
+    let (more, rest') = pratt_items rest in
+    (t :: more, rest')
+
+let pratt_site = function
+  | SLedDispatch -> "led-dispatch" | SStackTop -> "cnodestack-top" | SStackPop -> "cnodestack-pop"
+  | SHeaderIndex -> "range-header-index" | SHeaderSlice -> "range-header-slice" | STargets -> "range-targets"
+
+let pratt_case (toks : string list) : string =
+  let (ts, _) = pratt_items toks in
+  let n = int_of_nat (psize_list ts) in
+  match expand_gen (nat_of_int (3 * n + 10)) (nat_of_int (n + 2)) ts with
+  | POk k -> "ok:" ^ string_of_int (int_of_nat k)
+  | PErr -> "err" | PCrash s -> "crash:" ^ pratt_site s | PFuel -> "fuel"
+
 let () =
   iter_lines (fun line ->
     match split_tab line with
@@ -90,6 +147,8 @@ let () =
       let toks = Array.of_list (split_sp body) in
       if Array.length toks > 0 && toks.(0) = "F" then
         Printf.printf "%s\t%s\t-\n" id (call_case (List.tl (Array.to_list toks)))
+      else if Array.length toks > 0 && toks.(0) = "Q" then
+        Printf.printf "%s\t%s\t-\n" id (pratt_case (List.tl (Array.to_list toks)))
       else if Array.length toks > 0 && toks.(0) = "D" then
         Printf.printf "%s\t%s\t-\n" id (destructure_case (List.tl (Array.to_list toks)))
       else
